@@ -14,7 +14,8 @@
 //!               ledger size, balance, witnesses, redeemers — input of every oracle
 //! * [`exec`]    decoding with pallas-traverse and calling the real validator
 //! * [`explore`] enumeration of base x {single, pair} deviations and the shared sweep
-//! * [`checks`]  c33 .. c37
+//! * [`rulemodel`] independent model of the rule x era table of DESIGN.md Appendix B (C38)
+//! * [`checks`]  c33 .. c39
 
 pub mod bases;
 pub mod byron;
@@ -24,6 +25,7 @@ pub mod exec;
 pub mod explore;
 pub mod keys;
 pub mod params;
+pub mod rulemodel;
 pub mod txlab;
 pub mod wire;
 
@@ -35,7 +37,8 @@ pub mod quiet {
     static SAVED: AtomicI32 = AtomicI32::new(-1);
 
     pub fn silence_stderr() {
-        if SAVED.load(Ordering::SeqCst) >= 0 {
+        // VERIF_NOQUIET=1 keeps stderr (debugging a panic of the harness itself)
+        if SAVED.load(Ordering::SeqCst) >= 0 || std::env::var_os("VERIF_NOQUIET").is_some() {
             return;
         }
         unsafe {
